@@ -59,6 +59,31 @@ BUILT = {
          "parameter graphs (F = 1..4 folds, optimize on/off) vs Lean PExpr.eval",
          "Theorems for all shapes/axes; correspondence on random graphs over all node types, exact for the algebraic "
          "operators.", "DESIGN.md 4/C14"),
+ "C10": ("Lean 4 proof (a parameter graph / circuit denotes a function of the valuation of its leaves only; a reference "
+         "evaluates to the very tensor it points to; derived circuits have only reference/constant leaves; with the "
+         "operator theorems C03/C04/C06/C07, which hold for every valuation, the defining relations survive every "
+         "update) + correspondence along histories of optimizer steps / copy_ / reset / load_state_dict / evaluations",
+         "Theorems for all graphs and valuations; correspondence: every compiled derived circuit vs Lean eval of its "
+         "symbolic circuit under the operand's current values after each step of random histories, storage census.",
+         "DESIGN.md 4/C10"),
+ "C17": ("Lean 4 proof (fold-wise initialisation touches exactly its slice; axis arithmetic of the compiled Dirichlet "
+         "initialiser = declared axis for positive and negative axes; movedim restores the shape; refutation witnesses "
+         "of the two historical defects) + correspondence: slices read through the registry for every initialiser x "
+         "shape x axis x fold grouping x repeated resets",
+         "Theorems for all axes/ranks/groupings; correspondence exact for constants, sums/bounds for random initialisers.",
+         "DESIGN.md 4/C17"),
+ "C18": ("Lean 4 proof (invariant of the registry/pipeline state machine preserved by every step hence every history: "
+         "bimap bijective, compile idempotent, operands compiled first and once (completeness of the BFS + Kahn "
+         "ordering proved), operator-on-compiled = compile of symbolic operator, enter/exit restores the active context "
+         "for well-bracketed and sequentially reused contexts) + correspondence: random histories on the real "
+         "PipelineContext / TorchCompiler / ContextVar vs the model step by step",
+         "All theorems full (no partial); correspondence compares outputs, _compile_circuit call order (spy) and the "
+         "active context / operator registry after every step.", "DESIGN.md 4/C18"),
+ "C19": ("Lean 4 proof (load o save restores every registered storage for any same-layout instance, also with "
+         "duplicate keys; keys are a function of the layout; exactly-once iff no storage under two keys) + "
+         "correspondence: save -> fresh compilation -> load -> bitwise equal outputs, key census",
+         "Theorems for all layouts; correspondence over circuits and pipelines x flags; D12 (duplicate keys in derived "
+         "circuits) is a recorded known finding.", "DESIGN.md 4/C19"),
  "C06": ("Lean 4 proof (evidence_correct for every tree and observation, scope, concatenate) + correspondence: Lean "
          "eval of real evidence()/concatenate() vs Lean eval of operands; compiled vs compiled-on-overwritten-input",
          "Theorems need no structural hypothesis; correspondence on generated circuits with heterogeneous inputs "
